@@ -47,6 +47,8 @@ type evScenario struct {
 	Reps int     `json:"reps"`
 }
 
+var evSetSpelling int
+
 func litText(v evVal) string {
 	switch v.K {
 	case "int":
@@ -62,6 +64,15 @@ func litText(v evVal) string {
 		}
 		if v.K == "list" {
 			return "[" + strings.Join(parts, ", ") + "]"
+		}
+		// a set may be written with its elements in any order and more than once: every second set literal of two or
+		// more elements is written backwards with its last element repeated in front
+		if evSetSpelling++; evSetSpelling%2 == 0 && len(parts) > 1 {
+			rev := []string{parts[0]}
+			for i := len(parts) - 1; i >= 0; i-- {
+				rev = append(rev, parts[i])
+			}
+			parts = rev
 		}
 		return "{" + strings.Join(parts, ", ") + "}"
 	}
